@@ -19,40 +19,47 @@ PROP = 'C14'
 
 
 def gen_ops(rng, n):
-    """requests (object id, operation); ids 0 list, 1 dict, 2 Value, 3 custom class, >= 4 managed lists"""
+    """requests (object id, operation); ids 0 list, 1 dict, 2 Value, 3 custom class, 4 Namespace, >= 5 managed lists"""
     reqs = []
-    nobj = 4
+    nobj = 5
     small = lambda: rng.randrange(-3, 9)  # noqa
     for _ in range(n):
-        kind = rng.choice(['list'] * 5 + ['dict'] * 4 + ['value', 'factory', 'factory'])
+        kind = rng.choice(['list'] * 5 + ['dict'] * 4 + ['value', 'factory', 'factory', 'ns', 'ns'])
         if kind == 'list':
-            oid = rng.choice([0] + list(range(4, nobj)))
+            oid = rng.choice([0] + list(range(5, nobj)))
             k = rng.choice(['append', 'append', 'extend', 'insert', 'pop', 'popat', 'remove', 'index', 'count', 'len', 'get', 'set',
-                            'del', 'contains', 'reverse', 'sort', 'add', 'mul'])
+                            'del', 'contains', 'reverse', 'sort', 'add', 'mul', 'imul', 'iadd', 'iter'])
             op = {'append': lambda: [k, small()], 'extend': lambda: [k, [small() for _ in range(rng.randrange(0, 4))]],
                   'insert': lambda: [k, rng.randrange(-8, 9), small()], 'pop': lambda: [k], 'popat': lambda: [k, rng.randrange(-7, 8)],
                   'remove': lambda: [k, small()], 'index': lambda: [k, small()], 'count': lambda: [k, small()], 'len': lambda: [k],
                   'get': lambda: [k, rng.randrange(-7, 8)], 'set': lambda: [k, rng.randrange(-7, 8), small()],
                   'del': lambda: [k, rng.randrange(-7, 8)], 'contains': lambda: [k, small()], 'reverse': lambda: [k], 'sort': lambda: [k],
-                  'add': lambda: [k, [small() for _ in range(rng.randrange(0, 3))]], 'mul': lambda: [k, rng.randrange(-1, 4)]}[k]()
+                  'add': lambda: [k, [small() for _ in range(rng.randrange(0, 3))]], 'mul': lambda: [k, rng.randrange(-1, 4)],
+                  'imul': lambda: [k, rng.choice([0, 1, 1, 2])], 'iadd': lambda: [k, [small() for _ in range(rng.randrange(0, 3))]],
+                  'iter': lambda: [k]}[k]()
         elif kind == 'dict':
             oid = 1
             k = rng.choice(['dset', 'dset', 'dget', 'ddel', 'dpop', 'dpopd', 'dgetd', 'dgetn', 'dlen', 'dcontains', 'dclear', 'dsetdefault',
-                            'dupdate', 'dpopitem', 'dcopy'])
+                            'dupdate', 'dpopitem', 'dcopy', 'diter', 'dkeys', 'dvalues', 'ditems'])
             key = lambda: rng.randrange(0, 6)  # noqa
             op = {'dset': lambda: [k, key(), small()], 'dget': lambda: [k, key()], 'ddel': lambda: [k, key()], 'dpop': lambda: [k, key()],
                   'dpopd': lambda: [k, key(), small()], 'dgetd': lambda: [k, key(), small()], 'dgetn': lambda: [k, key()], 'dlen': lambda: [k],
                   'dcontains': lambda: [k, key()], 'dclear': lambda: [k] if rng.random() < 0.3 else ['dlen'], 'dsetdefault': lambda: [k, key(), small()],
-                  'dupdate': lambda: [k, [[key(), small()] for _ in range(rng.randrange(0, 4))]], 'dpopitem': lambda: [k], 'dcopy': lambda: [k]}[k]()
+                  'dupdate': lambda: [k, [[key(), small()] for _ in range(rng.randrange(0, 4))]], 'dpopitem': lambda: [k], 'dcopy': lambda: [k],
+                  'diter': lambda: [k], 'dkeys': lambda: [k], 'dvalues': lambda: [k], 'ditems': lambda: [k]}[k]()
         elif kind == 'value':
             oid = 2
             op = rng.choice([['vget'], ['vset', small()]])
+        elif kind == 'ns':
+            oid = 4
+            op = rng.choice([['nset', rng.randrange(0, 4), small()], ['nset', rng.randrange(0, 4), small()], ['nget', rng.randrange(0, 4)],
+                             ['nget', rng.randrange(0, 4)], ['ndel', rng.randrange(0, 4)]])
         else:
             oid = 3
             k = rng.choice(['fmake', 'fpeek', 'fnmade', 'ffail'])
-            if k == 'fmake' and nobj >= 7:
+            if k == 'fmake' and nobj >= 8:
                 k = 'fnmade'
-            op = {'fmake': lambda: [k, [small() for _ in range(rng.randrange(0, 4))]], 'fpeek': lambda: [k, rng.randrange(0, max(1, nobj - 4) + 1)],
+            op = {'fmake': lambda: [k, [small() for _ in range(rng.randrange(0, 4))]], 'fpeek': lambda: [k, rng.randrange(0, max(1, nobj - 5) + 1)],
                   'fnmade': lambda: [k], 'ffail': lambda: [k, small()]}[k]()
             if k == 'fmake':
                 nobj += 1
@@ -74,7 +81,7 @@ class Routes:
         from mpservice.multiprocessing import Process, Queue
         self.mod = c14_procs
         self.main = {0: m.list(list(case['list0'])), 1: m.dict(dict((k, v) for k, v in case['dict0'])),
-                     2: m.Value('i', case['value0']), 3: m.Factory()}
+                     2: m.Value('i', case['value0']), 3: m.Factory(), 4: m.Namespace()}
         self.copy = {}
         self.cq, self.aq = Queue(), Queue()
         self.proc = Process(target=c14_procs.helper_main, args=(self.cq, self.aq), name='c14-helper')
@@ -138,14 +145,16 @@ def run_case(case):
     from harness import c14_procs
     from harness.c13_procs import Factory
     from mpservice.multiprocessing.server_process import ServerProcess
-    local = {0: list(case['list0']), 1: dict((k, v) for k, v in case['dict0']), 2: c14_procs.LocalValue(case['value0']), 3: Factory()}
+    from multiprocessing.managers import Namespace
+    local = {0: list(case['list0']), 1: dict((k, v) for k, v in case['dict0']), 2: c14_procs.LocalValue(case['value0']), 3: Factory(),
+             4: Namespace()}
     local[3].adopt('0', local[0])
     local[3].adopt('1', local[1])
     obs, ref, extra = [], [], []
     with ServerProcess() as m:
         routes = Routes(m, case)
         try:
-            nxt = 4
+            nxt = 5
             for oid, op, route in case['reqs']:
                 a = routes.call(oid, op, route, nxt)
                 if route == 'nested':
@@ -161,7 +170,7 @@ def run_case(case):
                 ref.append(b)
             final = {}
             for oid in sorted(local):
-                if oid in (2, 3):
+                if oid in (2, 3, 4):
                     continue
                 final[str(oid)] = [routes.call(oid, ['len'], 'main', None), c14_procs.do_op(local[oid], ['len'])[0]]
             # a second manager class hosts another class under the same typeid, in the same client process
@@ -250,6 +259,9 @@ def coq_case(r):
              'count': lambda: f'LCount {cz(a[0])}', 'len': lambda: 'LLen', 'get': lambda: f'LGet {cz(a[0])}', 'set': lambda: f'LSet {cz(a[0])} {cz(a[1])}',
              'del': lambda: f'LDel {cz(a[0])}', 'contains': lambda: f'LContains {cz(a[0])}', 'reverse': lambda: 'LReverse', 'sort': lambda: 'LSort',
              'add': lambda: f'LAdd {zl(a[0])}', 'mul': lambda: f'LMul {cz(a[0])}',
+             'imul': lambda: f'LIMul {cz(a[0])}', 'iadd': lambda: f'LIAdd {zl(a[0])}', 'iter': lambda: 'LIter',
+             'diter': lambda: 'DIter', 'dkeys': lambda: 'DKeys', 'dvalues': lambda: 'DValues', 'ditems': lambda: 'DItems',
+             'nset': lambda: f'NSet {cz(a[0])} {cz(a[1])}', 'nget': lambda: f'NGet {cz(a[0])}', 'ndel': lambda: f'NDel {cz(a[0])}',
              'dset': lambda: f'DSet {cz(a[0])} {cz(a[1])}', 'dget': lambda: f'DGet {cz(a[0])}', 'ddel': lambda: f'DDel {cz(a[0])}',
              'dpop': lambda: f'DPop {cz(a[0])}', 'dpopd': lambda: f'DPopD {cz(a[0])} {cz(a[1])}', 'dgetd': lambda: f'DGetD {cz(a[0])} {cz(a[1])}',
              'dgetn': lambda: f'DGetN {cz(a[0])}', 'dlen': lambda: 'DLen', 'dcontains': lambda: f'DContains {cz(a[0])}', 'dclear': lambda: 'DClear',
@@ -258,7 +270,7 @@ def coq_case(r):
              'fmake': lambda: f'FMakeList {zl(a[0])}', 'fpeek': lambda: f'FPeek {cnat(a[0])}', 'fnmade': lambda: 'FNMade', 'ffail': lambda: f'FFail {cz(a[0])}'}
         return m[k]()
 
-    nxt = [4]
+    nxt = [5]
 
     def cresp(a):
         if a[0] == 'int':
@@ -275,12 +287,12 @@ def coq_case(r):
             nxt[0] += 1
             return f'RProxy {cnat(nxt[0] - 1)}'
         if a[0] == 'exc':
-            cls = {'IndexError': 1, 'ValueError': 2, 'KeyError': 3}.get(a[1], 8)
+            cls = {'IndexError': 1, 'ValueError': 2, 'KeyError': 3, 'AttributeError': 4}.get(a[1], 8)
             arg = f'(Some {cz(a[2][0])})' if (cls == 3 and a[2] and isinstance(a[2][0], int)) else 'None'
             return f'RErr {cnat(cls)} {arg}'
         return 'RErr 7%nat None'
 
-    objs = f"[OList {zl(c['list0'])}; ODict {pl(c['dict0'])}; OValue {cz(c['value0'])}; OFactory []]"
+    objs = f"[OList {zl(c['list0'])}; ODict {pl(c['dict0'])}; OValue {cz(c['value0'])}; OFactory []; ONs []]"
     reqs = clist(c['reqs'], lambda q: f'({cnat(q[0])}, {cop(q[1])})')
     return f"({objs}, {reqs}, {clist(res['observed'], cresp)})"
 
@@ -296,7 +308,7 @@ TRUSTED = [
 ASSUME = [
     'requests are issued one at a time (the order in which the server handles them is the order of issue); concurrent requests to one object '
     'are serialised by the GIL inside the container methods and are not explored',
-    'elements, keys and values are integers in the model; dict views (keys/values/items) and iterators are not modelled',
+    'elements, keys and values are integers in the model; dict views and iteration are modelled as the lists they produce',
 ]
 
 
@@ -324,7 +336,7 @@ def check(tier, seed, replay=None):
     return core.generic_check(
         PROP, tier, seed, [part], TRUSTED, ASSUME,
         rule='random cases: a hosted list, dict, Value and custom class (whose make_list returns managed() lists, up to 3 per case) with random '
-             'initial contents; 5-60 requests drawn from 17 list, 14 dict, 2 Value and 4 custom-class operations with arguments chosen so that '
+             'initial contents; 5-60 requests drawn from 20 list (incl. in-place `*=`, `+=` and iteration), 18 dict (incl. iteration, keys, values, items), 2 Value, 3 Namespace and 4 custom-class operations with arguments chosen so that '
              'about a fifth raise (IndexError, ValueError, KeyError); every request goes through a randomly chosen route: original proxy, '
              'unpickled copy, second thread, second process, or (list and dict) a proxy held by another hosted object and used inside the server '
              'process; each case ends with calls on a second manager class that hosts a different class under the same typeid. non-trivial = at least 15 requests of which one raised; distinct = distinct case',
